@@ -1,6 +1,6 @@
 From Coq Require Import ZArith List Bool Reals Lra.
 From Flocq Require Import Core BinarySingleNaN.
-Require Import GV.FloatBase GV.FloatLemmas GV.AngleM GV.AngleProofs GV.GeonumM GV.GeonumProofs GV.NewProofs GV.CtorProofs GV.ClosureProofs GV.SumUpper.
+Require Import GV.FloatBase GV.FloatLemmas GV.AngleM GV.AngleProofs GV.GeonumM GV.GeonumProofs GV.NewProofs GV.CtorProofs GV.ClosureProofs GV.SumUpper GV.PiBounds GV.TrigProofs GV.DotValue GV.DistValue GV.DirProofs GV.SumDir GV.ProdProofs GV.CartCtor GV.Atan2Ideal.
 Open Scope R_scope.
 Require Import GV.Properties.C02.
 Check C02_fast_path : forall k, (0 <= k < 2 ^ 53)%Z -> new (of_Z k) two = {| rem := zero; blade := k |}.
@@ -44,3 +44,31 @@ Print Assumptions C02_negative_at_most_one_turn.
 Check C02_lift_range : forall t, fin t -> Rabs (R_ t) <= bpow radix2 42 -> R_ t < 0 ->
   fin (lift_total t) /\ 0 <= R_ (lift_total t) <= 4 * R_ Q + / 256.
 Print Assumptions C02_lift_range.
+Check C02_from_cartesian_direction : forall (L : libm) (u2 : R) x y, atan2_acc L u2 -> fin x -> fin y ->
+  let a := new_from_cartesian L x y in
+  Canon a /\ (blade a <= 4)%Z /\
+  exists theta, R_ x = sqrt (R_ x * R_ x + R_ y * R_ y) * cos theta /\ R_ y = sqrt (R_ x * R_ x + R_ y * R_ y) * sin theta /\
+    Rabs (cos (dirR a) - cos theta) <= u2 + R_ eps10 + 3 / 100000000000000 /\
+    Rabs (sin (dirR a) - sin theta) <= u2 + R_ eps10 + 3 / 100000000000000.
+Print Assumptions C02_from_cartesian_direction.
+Check C02_from_cartesian_value : forall (L : libm) (u2 : R) x y, atan2_acc L u2 -> fin x -> fin y ->
+  fin (fsqrt (fadd (fmul x x) (fmul y y))) -> fin (fadd (fmul x x) (fmul y y)) ->
+  bpow radix2 (-1000) <= R_ x * R_ x + R_ y * R_ y ->
+  let g := gnew_from_cartesian L x y in
+  let r := sqrt (R_ x * R_ x + R_ y * R_ y) in
+  let T := r * (6 * / 9007199254740992 + u2 + R_ eps10 + 3 / 100000000000000) in
+  Canon (ang g) /\ Rabs (R_ (mag g) * cos (dirR (ang g)) - R_ x) <= T /\ Rabs (R_ (mag g) * sin (dirR (ang g)) - R_ y) <= T.
+Print Assumptions C02_from_cartesian_value.
+Check C02_radians_direction : forall (at_ : F), fin at_ -> Rabs (R_ at_) <= R_ PI ->
+  let a := new (fdiv at_ PI) one in
+  Canon a /\ (blade a <= 4)%Z /\
+  exists J : Z, (0 <= J)%Z /\ Rabs (dirR a - (R_ at_ + 2 * Rtrigo1.PI * IZR J)) <= R_ eps10 + 3 / 100000000000000.
+Print Assumptions C02_radians_direction.
+Check C02_new_direction : forall p d, fast_path p d = false ->
+  fin (total_angle p d) -> Rabs (R_ (total_angle p d)) <= bpow radix2 42 ->
+  exists J : Z, (0 <= J)%Z /\
+    Rabs (dirR (new p d) - (R_ (total_angle p d) + 2 * Rtrigo1.PI * IZR J))
+      <= R_ eps10 + 2 / 100000000000000 + Rabs (R_ (total_angle p d)) / 1000000000000000.
+Print Assumptions C02_new_direction.
+Check C02_atan2_premise_inhabited : exists L : libm, atan2_acc L (/ 1125899906842624).
+Print Assumptions C02_atan2_premise_inhabited.
